@@ -19,7 +19,7 @@ typedef struct ioop {
 	int running, invocations, done_count, err, after_done, cancelled_notices;
 	unsigned char *got; size_t ngot;            // read: bytes delivered; write: bytes reported unwritten
 	size_t max_chunk; size_t high_in_force;
-	int submitted, after_close;
+	int submitted, after_close, epoch;          // file channels: number of barriers that ran before it was submitted
 	uint64_t barrier_start, barrier_end; size_t bytes_at_bstart, bytes_at_bend; int calls_at_bstart, calls_at_bend;
 	size_t stream_pos;                          // write: position of its data in the written stream
 } ioop;
@@ -467,8 +467,9 @@ static void file_compare(const char *when) {
 }
 static void c14_file_run(void) {
 	bool big = RC.cfg & CFG_THOROUGH;
+	int file_epoch = 0;
 	X.kind = CH_FILE; X.is_stream = 0; X.hq_serial = g_chance(1, 2);
-	X.file_size = (size_t)g_range(2000, big ? 40000 : 12000);
+	X.file_size = (size_t)g_range(2000, big ? 120000 : 60000);   // slices of a sixth: up to a few chunks at 4 KiB chunks
 	X.file_model = malloc(X.file_size);
 	for (size_t k = 0; k < X.file_size; k++) X.file_model[k] = pat(k);
 	X.by_path = g_chance(1, 2);
@@ -479,7 +480,9 @@ static void c14_file_run(void) {
 		ioop *op = &X.ops[i]; memset(op, 0, sizeof *op); op->idx = idx++; op->got = malloc(MAXBYTES);
 		uint32_t r = g_n(100);
 		if (slice >= (int)nsl || r < 15) { op->kind = IO_BARRIER; slice = 0; continue; }
-		if (r < 25) { op->kind = IO_SET_WATER; op->high = (size_t)g_range(64, 3000); continue; }
+		if (r < 25) { op->kind = IO_SET_WATER; op->high = (size_t)g_range(64, 3000);
+			if (io_chunk_pages <= 4 && g_chance(1, 2)) { size_t ch = (size_t)io_chunk_pages * 4096; op->low = ch + (size_t)g_n((uint32_t)ch); op->high = op->low + (size_t)g_n((uint32_t)ch); }
+			continue; }
 		op->kind = r < 62 ? IO_READ : IO_WRITE;
 		size_t off = (size_t)slice * sl + g_n((uint32_t)(sl / 2)), len = 1 + g_n((uint32_t)(sl - (off - (size_t)slice * sl) - 1));
 		op->off = (off_t)off; op->len = len; slice++;
@@ -512,10 +515,12 @@ static void c14_file_run(void) {
 			// the barrier orders I/O, not handler deliveries: every earlier write must have reached the file by now
 			for (int j = 0; j < i; j++) { ioop *w = &X.ops[j]; if (w->kind == IO_WRITE && w->submitted && !w->after_done) { w->after_done = 1;
 				for (size_t k = 0; k < w->len; k++) X.file_model[(size_t)w->off + k] = pat((size_t)w->off + k + 1000 * (size_t)w->idx); } }
+			file_epoch++;
 			if (sim_st.iofault[IOF_EIO] + sim_st.iofault[IOF_ENOSPC] > 0) continue;
 			file_compare("at a barrier (an earlier write had not reached the file, or a later one already had)");
 			continue;
 		}
+		op->epoch = file_epoch;
 		submit_op(op);
 		sim_point();
 	}
@@ -534,8 +539,19 @@ static void c14_file_run(void) {
 		if (op->kind == IO_READ) {
 			if (op->ngot > op->len) h_viol("too-much-data", "file io_read #%d delivered %zu of %zu bytes", op->idx, op->ngot, op->len);
 			if (!op->err && !hard && op->ngot != op->len) h_viol("short-read", "file io_read #%d (off %ld len %zu) completed without error with %zu bytes", op->idx, (long)op->off, op->len, op->ngot);
-			for (size_t k = 0; k < op->ngot; k++) if (op->got[k] != pat((size_t)op->off + k) && op->got[k] != X.file_model[(size_t)op->off + k])
-				h_viol("wrong-bytes", "file io_read #%d: byte %zu (file offset %zu) is 0x%02x", op->idx, k, (size_t)op->off + k, op->got[k]);
+			// every byte is what the last write of an earlier epoch left there (or the original contents); writes of
+			// the read's own epoch only overlap it when barriers were switched off by the minimiser: then either value
+			// is admissible; a write of a later epoch must never be visible
+			for (size_t k = 0; k < op->ngot && !hard; k++) {
+				size_t o = (size_t)op->off + k; unsigned char want = pat(o); int ok = 0;
+				for (int j = 0; j < X.nops; j++) { ioop *w = &X.ops[j];
+					if (w->kind != IO_WRITE || !w->submitted || o < (size_t)w->off || o >= (size_t)w->off + w->len) continue;
+					unsigned char wv = pat(o + 1000 * (size_t)w->idx);
+					if (w->epoch < op->epoch) want = wv;
+					else if (w->epoch == op->epoch && op->got[k] == wv) ok = 1; }
+				if (!ok && op->got[k] != want)
+					h_viol("wrong-bytes", "file io_read #%d: byte %zu (file offset %zu) is 0x%02x, expected 0x%02x (the contents after the barrier before it)", op->idx, k, o, op->got[k], want);
+			}
 		}
 		if ((op->kind == IO_READ || op->kind == IO_WRITE) && op->done_count != 1) h_viol("done-count", "%s #%d saw done %d times", ion[op->kind], op->idx, op->done_count);
 	}
